@@ -235,6 +235,18 @@ impl HostTimer {
     pub(crate) fn since_epoch(&self) -> Duration {
         self.since_epoch + self.sim_elapsed()
     }
+
+    /// The logical duration from [`UNIX_EPOCH`] until the start of the
+    /// current turn of this host (i.e. `since_epoch` without the time the
+    /// software has run in this turn).
+    ///
+    /// Unlike [`HostTimer::since_epoch`] this does not read
+    /// `tokio::time::Instant::now()`, so it may be called outside of the
+    /// host's (paused) runtime, where `Instant::now()` is the wall clock.
+    #[cfg(feature = "unstable-fs")]
+    pub(crate) fn since_epoch_at_turn_start(&self) -> Duration {
+        self.since_epoch + self.start_offset + self.elapsed
+    }
 }
 
 /// Simulated UDP host software.
